@@ -135,8 +135,9 @@ def crate_call(w, it, name, args, callee):
         # observe the dead letter (reason, operation, target) and still run the real body
         reason = args[1].variant if isinstance(args[1], Agg) else str(args[1])
         ident = args[0]
-        w.dead_letters.append({"reason": reason, "op": args[2], "id": w.describe(ident.fields[0]) if isinstance(ident, Agg) else None})
-        it.ex.event(ev="dead_letter", reason=reason, op=args[2], id=w.dead_letters[-1]["id"])
+        opl = deref(it, args[2])
+        w.dead_letters.append({"reason": reason, "op": opl, "id": w.describe(ident.fields[0]) if isinstance(ident, Agg) else None})
+        it.ex.event(ev="dead_letter", reason=reason, op=opl, id=w.dead_letters[-1]["id"])
     if len(b.blocks) == 1 and b.is_coroutine is False and b.ret_type.startswith("{async"):
         pass
     return it.call_body(b, args)
@@ -343,11 +344,13 @@ def actor_hook(w, it, meth, args):
     actor = deref(it, actor_ref)
     script = actor.extra
     if meth == "on_run":
-        k = script.__dict__.setdefault("_runs", 0)
-        script._runs = k + 1
+        # the k-th *executed* on_run body (select! creates an on_run future in every iteration and
+        # drops it unpolled when an earlier branch is ready: those do not count)
+        k = script.__dict__.setdefault("_runs_done", 0)
         outcome, yields = script.on_run[k] if k < len(script.on_run) else script.on_run_default
 
         def finish(it, outcome=outcome, script=script, actor_ref=actor_ref):
+            script._runs_done = script.__dict__.get("_runs_done", 0) + 1
             a = deref(it, actor_ref)
             a.fields[0] = it.binop("Add", a.fields[0], IntV(1, 8))
             if outcome == "panic":
@@ -485,7 +488,8 @@ def install(w):
          "std::rt::begin_panic", "core::panicking::panic_explicit", "panicking::panic_display", "core::panicking::assert_failed", "panicking::assert_failed",
          "core::panicking::unreachable_display", "panicking::unreachable_display")
     def panic_fmt(w, it, a, c):
-        msg = a[0] if a and isinstance(a[0], str) else (a[0].data if a and isinstance(a[0], Opaque) and isinstance(a[0].data, str) else "panic")
+        a0 = deref(it, a[0]) if a else None
+        msg = a0 if isinstance(a0, str) else (a0.data if isinstance(a0, Opaque) and isinstance(a0.data, str) else "panic")
         it.ex.event(ev="panic", msg=str(msg)[:100], task=w.cur_task.name if w.cur_task else None)
         raise RustPanic(str(msg))
 
@@ -742,14 +746,13 @@ def install(w):
             if w.unwinding_now:
                 m.fields[2] = True        # std poisons a mutex whose guard is dropped while panicking
 
-    w.unwinding_now = False
-
     @reg("Mutex::new")
     def mutex_new(w, it, a, c):
         return Agg("struct", "Mutex", [a[0], False, False])   # data, locked, poisoned
 
     @reg("Mutex::lock")
     def mutex_lock(w, it, a, c):
+        w.acc(("graph",), True)
         r = a[0]
         m = it.load(r.cell, r.path)
         if m.fields[1]:
@@ -907,6 +910,7 @@ def install(w):
     @reg("tokio::sync::mpsc::Sender::try_send")
     def tx_try_send(w, it, a, c):
         ch = deref(it, a[0]).chan
+        w.acc(ch.key(), True)
         if ch.closed:
             return mk_err(mk_enum("TrySendError", "Closed", a[1]))
         if ch.free == 0:
@@ -922,6 +926,7 @@ def install(w):
 
     @reg("tokio::sync::mpsc::Sender::is_closed")
     def tx_is_closed(w, it, a, c):
+        w.acc(deref(it, a[0]).chan.key(), False)
         return deref(it, a[0]).chan.closed
 
     @reg("tokio::sync::mpsc::Sender::downgrade")
@@ -930,11 +935,13 @@ def install(w):
 
     @reg("tokio::sync::mpsc::Sender::strong_count", "WeakSender::strong_count", "tokio::sync::mpsc::WeakSender::strong_count")
     def tx_strong_count(w, it, a, c):
+        w.acc(deref(it, a[0]).chan.txkey(), False)
         return IntV(deref(it, a[0]).chan.tx_count, 64)
 
     @reg("WeakSender::upgrade", "tokio::sync::mpsc::WeakSender::upgrade")
     def weak_upgrade(w, it, a, c):
         ch = deref(it, a[0]).chan
+        w.acc(ch.txkey(), False)
         if ch.tx_count == 0:
             return mk_none()
         ch.tx_count += 1
@@ -965,6 +972,7 @@ def install(w):
 
     @reg("tokio::sync::mpsc::Receiver::close")
     def rx_close(w, it, a, c):
+        w.acc(deref(it, a[0]).chan.key(), True)
         deref(it, a[0]).chan.close()
         return UNIT
 
@@ -977,6 +985,7 @@ def install(w):
     def os_send(w, it, a, c):
         s = a[0]
         ch = s.c
+        w.acc(("os", ch.id), True)
         if ch.rx_dropped:
             ch.tx_dropped = True
             return mk_err(a[1])
@@ -1009,6 +1018,7 @@ def install(w):
 
     @reg("tokio::task::LocalKey::try_with", "LocalKey::try_with")
     def lk_try_with(w, it, a, c):
+        pass
         key = a[0]
         v = key.cell.value
         if isinstance(v, Agg) and v.variant == "Some":
